@@ -9,6 +9,7 @@ def run(rep: Report, tier: str, only=None) -> None:
 	jobs = [
 		Job('O1.parse_error', H, 'parse_error_law', {}, t, 'F', 'parser.parse raises one of 8 exceptions (UnexpectedToken, UnexpectedCharacters, UnexpectedEOF, DedentError, ValueError, RecursionError, KeyError, AssertionError) x module on disk / only in memory', ('on_disk', 'in_memory', 'syntax_error')),
 		Job('O2.handler_error', H, 'handler_error_law', {}, t, 'F', 'a Procedure handler raises one of 10 exceptions (built-in, application error with node / text / no argument) at handler call 1..6 of a real parsed tree; rendering; reuse of the procedure', ('normalised',)),
+		Job('O3.render', 'harness.c16_spans', 'render_law', {}, t, 'S', 'ErrorRender(Errors.NodeNotFound(node)).render() for a real node with a symbolic span or without any recorded position (line index -1)', ('position', 'no_position')),
 	]
 	if only:
 		jobs = [j for j in jobs if j.obligation in only or j.obligation.split('.')[0] in only]
